@@ -186,7 +186,9 @@ func c07Gen(g *simcore.Tape, thorough bool) *c07Scenario {
 				// goroutine races the copy loop in real time; the race decides whether net/http sniffs a
 				// Content-Type and whether an empty body is framed as Content-Length: 0 or as chunks. That is
 				// outside fabio and would make runs irreproducible, so chunked replies always carry a body and a type.
-				rs.Chunked = len(rs.Body) > 0 && g.Chance(40)
+				// ... and stay below the simnet window: ReverseProxy copies them under its flush mutex, a Write that
+				// blocks on a full window would hold that mutex and stall the bubble (library lock, not durable).
+				rs.Chunked = len(rs.Body) > 0 && len(rs.Body) <= 48000 && g.Chance(40)
 				if rs.Chunked {
 					hasCT := false
 					for _, h := range rs.Headers {
